@@ -54,9 +54,36 @@ M = [
 ]
 
 
+# changes that do NOT break any property: every listed check must stay at exit 0 (name, checks to run, file, old, nth, new, note)
+BENIGN = [
+ ("benign_array_growth_x2", "C04 C05 C12 C19", "src/Array.c", "    a->nslots = a->nitems + a->nitems / 2;", 1, "    a->nslots = a->nitems * 2 + 3;", "Array grows by doubling"),
+ ("benign_table_load_factor", "C02 C05 C12 C10", "src/Table.c", "static const double Table_Load_Factor = 0.9;", 1, "static const double Table_Load_Factor = 0.6;", "Table rehashes earlier"),
+ ("benign_gc_load_factor", "C01 C06 C17", "src/GC.c", "static const double GC_Load_Factor = 0.9;", 1, "static const double GC_Load_Factor = 0.7;", "collector's pointer table rehashes earlier"),
+ ("benign_gc_hash_shift", "C01 C06 C17 C18", "src/GC.c", "  return ((uintptr_t)ptr) >> 3;", 1, "  return ((uintptr_t)ptr) >> 4;", "collector hashes addresses differently"),
+ ("benign_hash_seed", "C02 C10 C16", "src/Hash.c", "	uint64_t h = 0xCe110 ^ (size * m);", 1, "	uint64_t h = 0xBe110 ^ (size * m);", "another seed for the data hash"),
+ ("benign_list_at_from_head", "C04 C05 C11", "src/List.c", "  if (i <= (int64_t)(l->nitems / 2)) {", 1, "  if (true) {", "List indexing always walks from the head"),
+ ("benign_string_concat_extra_room", "C16 C19", "src/String.c", "  s->val = realloc(s->val, strlen(s->val) + strlen(c_str(obj)) + 1);", 1, "  s->val = realloc(s->val, strlen(s->val) + strlen(c_str(obj)) + 17);", "String concat over-allocates"),
+ ("benign_message_text", "C12 C04 C02 C20", "src/Array.c", "\"Index '%i' out of bounds for Array of size %i.\"", 1, "\"Array index %i is outside 0..%i\"", "reworded exception message"),
+ ("benign_gc_threshold", "C01 C06 C17 C13", "src/GC.c", "  gc->mitems = gc->nitems + gc->nitems / 2 + 1;", 1, "  gc->mitems = gc->nitems + gc->nitems / 4 + 8;", "collections are triggered at other allocation counts"),
+]
+
+
 def main():
     os.makedirs(OUT, exist_ok=True)
     idx = []
+    bidx = []
+    for name, pids, f, old, nth, new, note in BENIGN:
+        src = open(os.path.join(REPO, f)).read()
+        pos = -1
+        for _ in range(nth):
+            pos = src.find(old, pos + 1)
+            if pos < 0:
+                sys.exit("benign change %s: text not found in %s" % (name, f))
+        mut = src[:pos] + new + src[pos + len(old):]
+        d = "".join(difflib.unified_diff(src.splitlines(True), mut.splitlines(True), "a/" + f, "b/" + f))
+        open(os.path.join(OUT, name + ".diff"), "w").write(d)
+        bidx.append("%s\t%s\t%s\t%s" % (name, pids, f, note))
+    open(os.path.join(OUT, "benign.tsv"), "w").write("\n".join(bidx) + "\n")
     for name, pid, f, old, nth, new, note in M:
         if old is None:
             continue
